@@ -12,6 +12,7 @@ its header bytes, and that hash is injective.
 -/
 import P2.Model.LogStore
 import P2.Lemmas.LogStore
+import P2.Extracted.C03
 
 namespace P2.C03
 open P2.Header P2.LogStore P2.LogStoreLemmas
@@ -120,6 +121,52 @@ theorem c03_rejects (c : ExtCodec E) (tbl : SigTable) (s : Store) (o : Op E) (lo
   · exact ⟨fun h => (by rw [hf] at h; cases h), fun _ => hs⟩
   · exact ⟨fun h => (by rw [ha] at h; cases h), fun _ => hs⟩
   · exact ⟨fun _ => ⟨hv, vpb_ok _ _ _ hvpb⟩, fun h => absurd hins h⟩
+
+/-- **Tie to the source text**: the model's repaired `validatePrunableBacklink` is the Lean term
+    that `rs2lean` regenerates from the current body of `validate_prunable_backlink`
+    (p2panda-core/src/prune.rs) on every run — an edit of its decision logic (a dropped arm, `<=`
+    → `<`, the prune branch accepting unconditionally again) breaks this proof obligation before
+    any input is generated. -/
+theorem c03_validate_prunable_is_source {E : Type} (past : Option Row) (h : Header E) (prune : Bool) :
+    codeOf (validatePrunableBacklink past h prune) =
+      P2.Extracted.C03.validatePrunableT (past.map pastTriple) h.seq h.key prune
+        (fun p => codeOf (validateBacklink (rowOfTriple p) h)) := by
+  rw [show @P2.Extracted.C03.validatePrunableT = @validatePrunableSpec from rfl]
+  exact vpb_eq_spec past h prune
+
+/-- `validate_backlink` (p2panda-core/src/operation.rs), read from the current source: the
+    (condition, error) pairs in order — same author, `seq + 1`, backlink = hash of the past header,
+    backlink present — are the ones `validateBacklink` transcribes. (`rs2lean` cannot translate
+    this body — a `match` statement with early returns in its arms followed by a tail
+    expression — so the tie is on the extracted condition texts.) -/
+theorem c03_extracted_backlink_checks :
+    P2.Extracted.C03.backlinkChecks =
+      [("past_header.verifying_key != header.verifying_key", "TooManyAuthors"),
+       ("past_header.seq_num + 1 != header.seq_num", "SeqNumNonIncremental"),
+       ("past_header.hash() != backlink", "BacklinkMismatch"),
+       ("header.backlink is None", "BacklinkMissing")] ∧
+    P2.Extracted.C03.backlinkScrutinee = "header.backlink" ∧
+    P2.Extracted.C03.backlinkTail = "Ok(())" := by
+  refine ⟨rfl, rfl, rfl⟩
+
+/-- Step order and arguments of `ingest_operation` and the SQL of `prune_entries` /
+    `GET_LATEST_ENTRY`, read from the current sources: validate → begin → dedup on
+    `operation.hash` (returning `Ok(false)`) → `past_header` bound to
+    `get_latest_entry_tx(author, log_id)` unconditionally → `validate_prunable_backlink(past_header,
+    header, prune_flag)` → insert → associate → commit; prune deletes `seq_num < ?` of one
+    `(verifying_key, log_id)`; latest = `ORDER BY seq_num DESC LIMIT 1`. -/
+theorem c03_extracted_ingest_order :
+    P2.Extracted.C03.ingestCalls = ["validate_operation", "begin", "has_operation_tx", "rollback",
+      "get_latest_entry_tx", "validate_prunable_backlink", "insert_operation", "associate", "commit"] ∧
+    P2.Extracted.C03.pastHeaderExpr = "store .get_latest_entry_tx(&operation.header.verifying_key, log_id) .await .map_err(STORE)? .map(|operation| operation.header)" ∧
+    P2.Extracted.C03.vpbArgs = "past_header.as_ref(), &operation.header, prune_flag" ∧
+    P2.Extracted.C03.dedupKey = "&operation.hash" ∧
+    P2.Extracted.C03.dedupReturn = "Ok(false)" ∧
+    P2.Extracted.C03.insertArgs = "&id, operation, log_id" ∧
+    P2.Extracted.C03.pruneSql = "DELETE FROM operations_v1 WHERE verifying_key = ? AND log_id = ? AND seq_num < ?" ∧
+    P2.Extracted.C03.pruneBinds = ["author.to_string()", "log_id", "until.to_string()"] ∧
+    P2.Extracted.C03.latestSql = "SELECT hash, header, body FROM operations_v1 WHERE verifying_key = ? AND log_id = ? ORDER BY seq_num DESC LIMIT 1" := by
+  refine ⟨rfl, rfl, rfl, rfl, rfl, rfl, rfl, rfl, rfl⟩
 
 /-! ### Non-vacuity: a concrete out-of-order history with a prune point and a forged copy -/
 
